@@ -153,16 +153,20 @@ def get_value(chk, P):
     cls = P.cls(mod, "TableReaderBase")
     site = cls.lookup("getValue").site()
     total = 0
+    reader = P.cls("atsim.potentials", "TableReader")
     for n in (range(1, 8) if chk.tier == "thorough" else (1, 2, 3, 4)):
         I = F.make_interp(P)
-        inst = InstV(cls)
         xs = [2 * i for i in range(n)]
-        I.hidden_list(inst).items.extend(ListV([Num(ep.const(x)), Num(ep.sym("y%d" % i))], "tuple") for i, x in enumerate(xs))
-        inst.attrs["xproxy"] = I.instantiate(P.cls(mod, "_XProxy"), [inst], {}, None)
+        # the public reader on a data file whose ordinates are arbitrary numbers ('@name': analysis convention for a symbol)
+        text = "".join("%d @y%d\n" % (x, i) for i, x in enumerate(xs))
+        inst = I.instantiate(reader, [PyObjV(FileModel(text))], {}, None)
         bad = []
-        for q in range(-1, 2 * n):
+        queries = list(range(-1, 2 * n))
+        # one reader object answers every query whatever was asked before: ascending, descending, and a shuffled repeat
+        order = queries + queries[::-1] + queries[::2] + queries[1::2]
+        for q in order:
             total += 1
-            v = I.num(W.run_method(I, inst, "getValue", [Num(ep.const(q))]))
+            v = I.num(I.call(inst, [Num(ep.const(q))], {}))
             if q < xs[0] or q > xs[-1]:
                 want = ep.const(0)
             elif q % 2 == 0:
@@ -173,7 +177,8 @@ def get_value(chk, P):
                 want = ep.sym("y%d" % i) + (ep.const(q) - lx) * (ep.sym("y%d" % (i + 1)) - ep.sym("y%d" % i)) / (hx - lx)
             if not ep.equal(v, want)[0]:
                 bad.append("x=%s: got %r want %r" % (q, v, want))
-        chk.ob("C18.O3", "table of %d point(s): every position of x (below, on each knot, between, above)" % n, not bad, site=site,
+        chk.ob("C18.O3", "table of %d point(s): every position of x (below, on each knot, between, above), asked in ascending, "
+                         "descending and interleaved order on one reader" % n, not bad, site=site,
                found="; ".join(bad[:3]) if bad else None, expect="0 outside / y on a knot / linear interpolant", key="C18.O3|n=%d" % n)
     chk.states = total
 
